@@ -93,8 +93,24 @@ def run(tier, seed):
     if rb.returncode != 0:
         run.violation("box_crash.txt", "c15-box crashed:\n" + rb.stderr[-2000:], no_input=True)
 
+    # ---- last sentence of C15: Transformation::transform_cell generates det(M) pairwise distinct cosets (judged on the
+    # implementation's own output: site count and pairwise difference modulo the new lattice), whole box of 3x3 matrices
+    cb = 3 if tier == "thorough" else 2
+    rc_ = vlib.harness(["c15-cosets", str(cb), str(vlib.NCPU), "64"])
+    coset_fail = []
+    for line in rc_.stdout.splitlines():
+        if line.startswith("cosets "):
+            cov["supercell_cosets_box"] = line
+        if line.startswith("cfail "):
+            coset_fail.append(line[6:])
+    if rc_.returncode != 0:
+        run.violation("cosets_crash.txt", "c15-cosets crashed:\n" + rc_.stderr[-2000:], no_input=True)
+
     # ---- decide
     failing = []
+    for cf in coset_fail:
+        mat, why = cf.split(" : ", 1)
+        failing.append((f"cosets {mat}", why, "Transformation::transform_cell with this supercell matrix on a one-atom cell"))
     # inputs where the implementation panicked
     for i in range(len(reqs)):
         if exps[i].startswith("PANIC"):
@@ -147,6 +163,13 @@ def replay(path):
         if line.startswith("request: "):
             q = line[len("request: "):].strip()
             kind, rest = q.split(" ", 1)
+            if kind == "cosets":
+                rr = vlib.harness(["c15-coset-one"] + rest.split(" "))
+                print("request:", q)
+                print("implementation:", rr.stdout.strip())
+                if rr.stdout.strip() != "distinct":
+                    rc = 1
+                continue
             rr = vlib.harness(["c15-one", kind] + rest.split(" "))
             e = rr.stdout.strip()
             print("request:", q)
